@@ -336,8 +336,14 @@ func stacks() string {
 func genErrors(rng *rand.Rand) []map[string]interface{} {
 	n := 1 + rng.Intn(3)
 	var out []map[string]interface{}
+	same := rng.Intn(3) == 0 // several errors with ONE message (they differ in extensions / path only)
+	base := rng.Intn(1000)
 	for i := 0; i < n; i++ {
-		e := map[string]interface{}{"message": fmt.Sprintf("downstream failure %d-%d", rng.Intn(1000), i)}
+		e := map[string]interface{}{"message": fmt.Sprintf("downstream failure %d-%d", base, i)}
+		if same {
+			e["message"] = fmt.Sprintf("downstream failure %d", base)
+			e["extensions"] = map[string]interface{}{"code": "SAME_MESSAGE", "which": i}
+		}
 		if rng.Intn(2) == 0 {
 			e["extensions"] = map[string]interface{}{"code": []string{"FORBIDDEN", "NOT_FOUND", "X"}[rng.Intn(3)], "n": rng.Intn(5), "nested": map[string]interface{}{"a": true}}
 		}
@@ -376,7 +382,7 @@ func repeatRuns(em *emitter, rng *rand.Rand, g *gw.GW, w *world.World, op *world
 			kind = fakesvc.AllFaultKinds[rng.Intn(len(fakesvc.AllFaultKinds))]
 		}
 		fault = &fakesvc.FaultSpec{Kind: kind, Svc: c.Svc, Call: c.Call, Pos: tl.Pos, Match: fakesvc.Identity(tl.Query, tl.Vars)}
-		if kind == "errors" || kind == "errorsall" {
+		if kind == "errors" || kind == "errorsall" || kind == "errorswithdata" {
 			fault.Errors = genErrors(rng)
 		}
 	}
@@ -455,7 +461,7 @@ func faultRuns(em *emitter, rng *rand.Rand, g *gw.GW, mono *fakesvc.Net, w *worl
 		c := calls[rng.Intn(len(calls))]
 		kind := fakesvc.AllFaultKinds[rng.Intn(len(fakesvc.AllFaultKinds))]
 		f := &fakesvc.FaultSpec{Kind: kind, Svc: c.Svc, Call: c.Call, Pos: rng.Intn(c.Batch)}
-		if kind == "errors" || kind == "errorsall" {
+		if kind == "errors" || kind == "errorsall" || kind == "errorswithdata" {
 			f.Errors = genErrors(rng)
 		}
 		runOpWith(em, g, nil, w, op, fmt.Sprintf("%s.fault%d", run, k), runOpts{fault: f})
